@@ -147,6 +147,8 @@ ASSUME_NORAISE = {
         'the prefix assigned is the prefix the rule was found by: a valid IDENT, and the rule passed the guard',
     ('cssutils/css/cssimportrule.py', '_setCssText', "self.atkeyword = new['keyword']"):
         'the keyword is the IMPORT_SYM token just matched; it normalises to @import',
+    ('cssutils/css/cssimportrule.py', '_setCssText', "self.media = cssutils.stylesheets.MediaList(mediaText='all')"):
+        'the constant media text "all" is a valid media list',
     ('cssutils/css/cssnamespacerule.py', '_setCssText', "self.atkeyword = new['keyword']"):
         'the keyword is the NAMESPACE_SYM token just matched; it normalises to @namespace',
     ('cssutils/css/csspagerule.py', '_setCssText', 'self.cssRules.append(r)'):
@@ -483,7 +485,21 @@ def has_kind(s, kind):
 
 
 def may_exc(s):
-    return has_kind(s, 'raise') or has_kind(s, 'mayRaise') or has_kind(s, 'guard')
+    """can the statement end with an exception (a DOM handler catches everything raised in its body)"""
+    k = s[0]
+    if k in ('raise', 'mayRaise', 'guard', 'rec'):
+        return True
+    if k == 'seq':
+        return any(may_exc(x) for x in s[1])
+    if k in ('choice', 'loop', 'tryFinally'):
+        return may_exc(s[1]) or may_exc(s[2])
+    if k == 'tryCatch':
+        return may_exc(s[2])
+    if k == 'scope':
+        return may_exc(s[1])
+    if k == 'ifFlag':
+        return may_exc(s[2]) or may_exc(s[3])
+    return False
 
 
 def strip_raises(s):
@@ -504,7 +520,7 @@ def strip_raises(s):
 def written_fields(s, acc=None):
     acc = set() if acc is None else acc
     k = s[0]
-    if k in ('assign', 'mutate', 'restore'):
+    if k in ('assign', 'mutate', 'restore', 'restoreC'):
         acc.add(s[1])
     elif k == 'seq':
         for x in s[1]:
@@ -572,6 +588,8 @@ class Translator:
         self.notes = []          # (where, text): conservative decisions worth reading
         self.deps = set()        # child mutators relied upon (class unknown: by name)
         self.assumed = set()     # ASSUME_NORAISE entries that were applied
+        self.extents = {}        # line id of a marked statement -> line id of its last line
+        self.foreign_cache = {}
 
     def note(self, env, node, text):
         self.notes.append(('%s:%s' % (env.file, getattr(node, 'lineno', '?')), text))
@@ -733,7 +751,24 @@ class Translator:
         return [field + '.' + f for f in CHILD_FIELDS[child]]
 
     # -- kinds -----------------------------------------------------------------------------------
+    TEXT_PROPS = {'cssText', 'mediaText', 'selectorText'}
+
+    def copy_of(self, e, env):
+        """`list(self.f)` / `self.f.cssText` -> ('copy', f) / ('copytext', f, prop): a copy of the content"""
+        if isinstance(e, ast.Call) and dotted(e.func) in ('list', 'tuple') and len(e.args) == 1 and not e.keywords:
+            k = self.kind_of(e.args[0], env)
+            if k[0] == 'saved' and isinstance(e.args[0], (ast.Attribute, ast.Subscript)):
+                return ('copy', k[1])
+        if isinstance(e, ast.Attribute) and e.attr in self.TEXT_PROPS:
+            k = self.kind_of(e.value, env)
+            if k[0] == 'saved' and isinstance(e.value, (ast.Attribute, ast.Subscript)):
+                return ('copytext', k[1], e.attr)
+        return None
+
     def kind_of(self, e, env):
+        c = self.copy_of(e, env)
+        if c is not None:
+            return c
         if isinstance(e, ast.Name):
             return env.kinds.get(e.id, LOCAL)
         if isinstance(e, ast.Tuple):
@@ -770,7 +805,7 @@ class Translator:
                 if isinstance(e.func, ast.Attribute):
                     ks.append(self.kind_of(e.func.value, env))
                 for k in ks:
-                    if k[0] in ('saved', 'elem'):
+                    if k[0] in ('saved', 'elem', 'copy'):
                         return ('elem', k[1])
                 for k in ks:
                     if k[0] == 'param':
@@ -797,7 +832,7 @@ class Translator:
     def merge_kind(a, b):
         if a == b:
             return a
-        pr = {'saved': 3, 'elem': 3, 'param': 2, 'tuple': 1, 'local': 0}
+        pr = {'saved': 3, 'elem': 3, 'copy': 3, 'copytext': 3, 'param': 2, 'tuple': 1, 'local': 0}
         if a[0] in ('saved', 'elem') and b[0] in ('saved', 'elem') and a[1] == b[1]:
             return ('elem', a[1])
         return a if pr[a[0]] >= pr[b[0]] else b
@@ -1027,14 +1062,60 @@ class Translator:
     # -- statements ------------------------------------------------------------------------------
     def block(self, stmts, env):
         out = []
-        for st in stmts:
+        i = 0
+        while i < len(stmts):
+            st = stmts[i]
+            f = self.content_restore(st, stmts[i + 1] if i + 1 < len(stmts) else None, env)
+            if f is not None:
+                out.append(seq([('mark', env.line(st)), ('mark', env.line(stmts[i + 1])), ('restoreC', f)]))
+                self.extents[env.line(st)] = env.line(st)
+                self.extents[env.line(stmts[i + 1])] = env.line(stmts[i + 1])
+                i += 2
+                continue
             out.append(self.stmt(st, env))
+            i += 1
         return seq(out)
+
+    def content_restore(self, a, b, env):
+        """`del self.f[:]` followed by `list.extend(self.f, old)` / `self.f.extend(old)` with `old = list(self.f)`"""
+        if b is None or not isinstance(a, ast.Delete) or len(a.targets) != 1:
+            return None
+        t = a.targets[0]
+        if not (isinstance(t, ast.Subscript) and isinstance(t.slice, ast.Slice) and t.slice.lower is None
+                and t.slice.upper is None and t.slice.step is None):
+            return None
+        k = self.kind_of(t.value, env)
+        if k[0] != 'saved':
+            return None
+        if not (isinstance(b, ast.Expr) and isinstance(b.value, ast.Call)):
+            return None
+        c = b.value
+        d = dotted(c.func)
+        if d == 'list.extend' and len(c.args) == 2:
+            recv, arg = c.args
+        elif isinstance(c.func, ast.Attribute) and c.func.attr == 'extend' and len(c.args) == 1:
+            recv, arg = c.func.value, c.args[0]
+        else:
+            return None
+        if ast.unparse(recv) != ast.unparse(t.value) or not isinstance(arg, ast.Name):
+            return None
+        if env.kinds.get(arg.id) != ('copy', k[1]):
+            return None
+        return k[1]
 
     def marked(self, node, env, s):
         s = seq([s])
         if pure(s):
             return s
+        if isinstance(node, (ast.If, ast.While)):
+            end = node.test.end_lineno
+        elif isinstance(node, ast.For):
+            end = node.iter.end_lineno
+        elif isinstance(node, (ast.Try, ast.With)):
+            end = node.lineno
+        else:
+            end = node.end_lineno
+        self.extents[env.line(node)] = env.line(node) - node.lineno + (end or node.lineno)
         return seq([('mark', env.line(node)), s])
 
     def stmt(self, st, env):
@@ -1191,7 +1272,7 @@ class Translator:
                     if c in SELF_ITER:
                         k = ('elem', env.prefix + SELF_ITER[c])
                         break
-            ek = ('elem', k[1]) if k[0] in ('saved', 'elem') else (k if k[0] == 'param' else LOCAL)
+            ek = ('elem', k[1]) if k[0] in ('saved', 'elem', 'copy') else (k if k[0] == 'param' else LOCAL)
             self.bind_names(st.target, ek, env)
         else:
             pre = self.marked(st, env, seq(self.eff(st.test, env)))
@@ -1229,21 +1310,34 @@ class Translator:
         dom, nondom = [], []
         for h in st.handlers:
             ts = self.handler_types(h)
-            if any(t.split('.')[-1] in DOM_EXC_NAMES for t in ts):
+            is_dom = any(t.split('.')[-1] in DOM_EXC_NAMES for t in ts)
+            other = [t for t in ts if t.split('.')[-1] not in DOM_EXC_NAMES]
+            if is_dom:
                 dom.append(h)
-            else:
-                nondom.append((ts, h.body))
-        if dom and nondom:
-            raise Unsupported('mixed DOM / non-DOM handlers at %s:%d' % (env.file, st.lineno))
+            if other or (is_dom and any(t.split('.')[-1] in ('Exception', 'BaseException') for t in ts)):
+                nondom.append((other or ts, h.body))
+        if len(dom) > 1:
+            raise Unsupported('several DOM handlers at %s:%d' % (env.file, st.lineno))
         if dom:
-            if len(dom) > 1:
-                raise Unsupported('several DOM handlers at %s:%d' % (env.file, st.lineno))
-            body, kb = self.branch(st.body, env)
-            if st.orelse:
-                raise Unsupported('try/except DOMException/else at %s:%d' % (env.file, st.lineno))
+            # except (..., xml.dom.DOMException) [else]: a flag records that a handler ran
+            self.uid += 1
+            fl = '%d:caught' % self.uid
+            pre = [ast.parse('pass').body[0]]
+            if nondom:
+                marked_h = [(ts, hb) for ts, hb in nondom]
+                body = self.try_nondom(st.body, marked_h, [], env, handler_flag=fl if st.orelse else None)
+                kb = (env.kinds, env.types)
+            else:
+                body, kb = self.branch(st.body, env)
             h, kh = self.branch(dom[0].body, env)
             self.merge_env(env, kb, kh)
-            core = ('tryCatch', body, h)
+            del pre
+            if st.orelse:
+                orelse = self.block(st.orelse, env)
+                core = seq([('setFlag', fl, False), ('tryCatch', body, seq([('setFlag', fl, True), h])),
+                            ('ifFlag', fl, ('skip',), orelse)])
+            else:
+                core = ('tryCatch', body, h)
         elif nondom:
             core = self.try_nondom(st.body, nondom, st.orelse, env)
         else:
@@ -1276,12 +1370,14 @@ class Translator:
                 hit = True
         return hit
 
-    def try_nondom(self, body, handlers, orelse, env):
+    def try_nondom(self, body, handlers, orelse, env, handler_flag=None):
         types = [t for ts, _ in handlers for t in ts]
         hs = []
         kinds_after = []
         for ts, hb in handlers:
             s, k = self.branch(hb, env)
+            if handler_flag is not None:
+                s = seq([('setFlag', handler_flag, True), s])
             hs.append(s)
             kinds_after.append(k)
         H = choices(hs)
@@ -1311,10 +1407,18 @@ class Translator:
             complex_ = not self.primitive_stmt(s)
             if can and complex_ and not pure(s):
                 # the exception may also surface after part of the statement's effects
-                r = seq([s, choice(H, r)])
-                r = choice(H, r)
+                items = s[1] if s[0] == 'seq' else [s]
+                k = 0
+                while k < len(items) and items[k][0] == 'mark':
+                    k += 1
+                r = seq(list(items[:k]) + [choice(H, seq(list(items[k:]) + [choice(H, r)]))])
             elif can:
-                r = choice(H, seq([s, r]))
+                # the statement was started (its mark) and then raised instead of having its effect
+                items = s[1] if s[0] == 'seq' else [s]
+                k = 0
+                while k < len(items) and items[k][0] == 'mark':
+                    k += 1
+                r = seq(list(items[:k]) + [choice(H, seq(list(items[k:]) + [r]))])
             else:
                 r = seq([s, r])
         if jump[2]:
@@ -1334,7 +1438,7 @@ class Translator:
         for it in items:
             if it[0] in ('mark', 'skip'):
                 continue
-            if it[0] in ('assign', 'mutate', 'save', 'restore', 'mayRaise', 'setFlag', 'havoc'):
+            if it[0] in ('assign', 'mutate', 'save', 'restore', 'saveC', 'restoreC', 'mayRaise', 'setFlag', 'havoc'):
                 n += 1
                 continue
             return False
@@ -1351,6 +1455,8 @@ class Translator:
                 for f in saves:
                     if env.last_save.get(f) == value.id:
                         env.last_save[f] = t.id
+            if kind[0] in ('copy', 'copytext') and value is not None and not isinstance(value, ast.Name):
+                out.append(('saveC', kind[1]))
             if value is not None and isinstance(value, (ast.Attribute, ast.Subscript, ast.Tuple)):
                 for f in saves:
                     out.append(('save', f))
@@ -1441,6 +1547,11 @@ class Translator:
 
     def inner_write(self, f, rest, child, kind, env, node, value=None):
         last = rest[-1]
+        if len(rest) == 1 and last[0] == 'attr' and kind == ('copytext', f, last[1]) and isinstance(value, ast.Name):
+            # `self.f.cssText = old` with `old = self.f.cssText`: the content is put back (re-parsing what the
+            # serializer wrote is assumed not to be rejected)
+            self.note(env, node, 'content restore of %s through %s' % (f, last[1]))
+            return ('restoreC', f)
         if last[0] == 'attr':
             if last[1] in UNOBSERVABLE_ATTRS:
                 return ('skip',)
@@ -1600,7 +1711,7 @@ class Translator:
                 if rk[0] == 'param':
                     if m in PURE_METHODS or m in PURE_SELF:
                         return args
-                    if m in MUTATING:
+                    if m in MUTATING or self.foreign_cannot_raise(m):
                         return args + [('mutate', '@' + rk[1])]
                     return args + [('mayRaise',), ('mutate', '@' + rk[1])]
                 # method of a local object or of a module
@@ -1638,6 +1749,24 @@ class Translator:
         pre = self.eff(f, env)
         self.note(env, e, 'call %s treated as mayRaise' % ast.unparse(f))
         return args + pre + [('mayRaise',)]
+
+    def foreign_cannot_raise(self, m):
+        """method `m` called on an argument object: if exactly one parsed class defines it and its own script has no
+        way of ending with an exception, the call cannot raise a DOM exception"""
+        owners = [c for c in self.src.classes.values() if m in c.methods]
+        if len(owners) != 1:
+            return False
+        key = (owners[0].name, m)
+        if key not in self.foreign_cache:
+            self.foreign_cache[key] = False      # recursion guard
+            sub = Translator(self.src)
+            sub.foreign_cache = self.foreign_cache
+            try:
+                body = sub.inline(None, owners[0].name, owners[0].name, owners[0].methods[m], [], {}, top=True)
+                self.foreign_cache[key] = not may_exc(simplify(body))
+            except Unsupported:
+                self.foreign_cache[key] = False
+        return self.foreign_cache[key]
 
     def self_call(self, e, m, env):
         if m == '_checkReadonly':
@@ -1760,7 +1889,8 @@ def extract_all(repo):
             try:
                 body, where = tr.mutator(cname, m)
                 out.append({'cls': cname, 'member': m, 'body': body, 'where': where, 'notes': tr.notes,
-                            'deps': sorted(tr.deps)})
+                            'deps': sorted(tr.deps), 'extents': tr.extents,
+                            'assumed': sorted('%s:%s: %s' % k for k in tr.assumed)})
             except Unsupported as ex:
                 failed.append((cname, m, str(ex)))
     return src, out, failed
@@ -1790,7 +1920,7 @@ def number(body):
 
     def go(s):
         k = s[0]
-        if k in ('assign', 'mutate', 'save', 'restore'):
+        if k in ('assign', 'mutate', 'save', 'restore', 'saveC', 'restoreC'):
             fields.add(s[1])
         elif k in ('setFlag', 'havoc'):
             flags.add(s[1])
@@ -1817,7 +1947,7 @@ def lean_term(s, fi, gi, ind=2):
         return '.' + k
     if k == 'mark':
         return '.mark %d' % s[1]
-    if k in ('assign', 'mutate', 'save', 'restore'):
+    if k in ('assign', 'mutate', 'save', 'restore', 'saveC', 'restoreC'):
         return '.%s %d' % (k, fi[s[1]])
     if k == 'setFlag':
         return '.setFlag %d %s' % (gi[s[1]], 'true' if s[2] else 'false')
@@ -1843,7 +1973,7 @@ def ident(name):
 def numbered(body, fi, gi):
     """the script with ids instead of names (plain lists: what the harness-side path search walks)"""
     k = body[0]
-    if k in ('assign', 'mutate', 'save', 'restore'):
+    if k in ('assign', 'mutate', 'save', 'restore', 'saveC', 'restoreC'):
         return [k, fi[body[1]]]
     if k == 'setFlag':
         return [k, gi[body[1]], body[2]]
@@ -1879,15 +2009,22 @@ def generate(repo):
         lines.append('def %s : Stmt :=\n  %s\n' % (ident(name), lean_term(o['body'], fi, gi)))
         recs.append({'name': name, 'cls': o['cls'], 'member': o['member'], 'fields': fi, 'flags': gi,
                      'body': numbered(o['body'], fi, gi), 'where': o['where'], 'notes': o['notes'],
-                     'deps': o['deps'], 'size': size(o['body'])})
+                     'deps': o['deps'], 'size': size(o['body']), 'extents': o['extents'],
+                     'assumed': o['assumed']})
     lines.append('/-- every extracted mutator script, with its fields -/')
     lines.append('def scripts : List Script := [')
     for r in recs:
         unobs = {}
         for c in src.mro(r['cls']):
             unobs.update(UNOBSERVABLE_FIELDS.get(c, {}))
-        r['observable'] = sorted(i for f, i in r['fields'].items() if f.split('.')[-1] not in unobs)
+        r['observable'] = sorted(i for f, i in r['fields'].items()
+                                 if f.split('.')[-1] not in unobs and not f.startswith('@'))
         r['unobservable'] = {f: unobs[f.split('.')[-1]] for f in r['fields'] if f.split('.')[-1] in unobs}
+        for f in r['fields']:
+            if f.startswith('@'):
+                r['unobservable'][f] = 'an argument object, not a field of the object operated on (the oracle ' \
+                                       'snapshots argument objects on the implementation)'
+
     lines.append(',\n'.join('  ⟨"%s", %s, %s⟩' % (r['name'], '[' + ', '.join(str(i) for i in r['observable']) + ']',
                                                 ident(r['name'])) for r in recs))
     lines.append(']\n')
